@@ -41,7 +41,7 @@ CHECKS = {
          "Threads with different chunk sizes (1 and >1) call for_each/enumerate_for_each/fold; closure invocations recorded per element.", "DESIGN §4 C12", TRUST),
  "C18": (True, "sched", "fault_enumeration", "fault injection (panic at the k-th probe next / clone / closure invocation) under generated schedules, hang + duplicate + ledger oracles",
          "Crash point k enumerated over 0..len+1 by the generator for three fault sites, under generated schedules.", "DESIGN §4 C18", TRUST),
- "C15": (True, "plain", "exploration", "property-based testing with a gated counting global allocator (allocation-balance oracle), sequential and after real-thread concurrent use",
+ "C15": (True, "plain+sched", "exploration", "property-based testing with a gated counting global allocator (allocation-balance oracle): sequential, after real-thread concurrent use, and under generated schedules on the schedule engine",
          "Whole cases (construction, operations, terminal, dropping everything) run inside a per-thread allocation gate, twice; balance of bytes and blocks must be exactly zero.", "DESIGN §4 C15", TRUST_SEQ + " Only allocations through the global allocator are visible."),
  "C16": (True, "plain", "exploration", "exhaustive enumeration of the boundary grid plus generated neighbours, u128 reference-model oracle, differential execution in both overflow modes",
          "The quantifier's grid (extreme ranges x chunk sizes x tails) is enumerated completely and judged by the mathematical cursor model in-process and in two separately compiled processes (overflow checks on/off).", "DESIGN §4 C16", TRUST_SEQ),
